@@ -313,7 +313,7 @@ def transform_family(draw):
     prof = sorted(draw(st.sets(st.integers(-20, 20).map(lambda k: k / 2.0), min_size=n + 1, max_size=n + 1)))
     if draw(st.booleans()):
         prof = prof[::-1]
-    arrays["TC"] = {"dims": ["ZC"], "values": prof[:n], "name": "THETA"}
+    arrays["TC"] = {"dims": ["ZC"], "values": prof[:n], "name": draw(st.sampled_from(["THETA", None]))}
     arrays["TO"] = {"dims": ["ZO"], "values": prof, "name": "THETA"}
     levels = draw(st.lists(st.sampled_from(prof + [min(prof) - 1, max(prof) + 1, (prof[0] + prof[1]) / 2]), min_size=2, max_size=4, unique=True))
     calls = []
